@@ -650,6 +650,39 @@ def w_iterdel( ctx ):
                     hits += 1
                     res.bad( src, n, 'live walk over the shared table `%s` ( %s )' % ( norm_text( it ), why ),
                              'another session that opens or closes a connection while this loop or comprehension runs changes the table under it: RuntimeError ( dictionary changed size during iteration ) - a valid Forward Close of this session\'s own connection is answered 0x08' )
+    # ---- the lookup tables every request reads without a lock are re-registered IN PLACE: the function that stores an entry removes nothing from
+    #      the table on its way there ( `del t[k]` ... `t[k] = v` leaves a window in which a request of another session finds no such tag )
+    stores_seen = 0
+    for rel, base in (( 'server/enip/device.py', 'symbol' ), ( 'server/enip/device.py', 'directory' )):
+        if not ctx.model.exists( rel ):
+            continue
+        src = ctx.src( rel )
+        for fn in [ f for f in ast.walk( src.tree ) if isinstance( f, ast.FunctionDef ) ]:
+            own = [ x for x in walk_no_nested( fn ) ]
+            stores = [ x for x in own if isinstance( x, ( ast.Assign, ast.AugAssign )) and any( isinstance( t_, ast.Subscript ) and dotted( t_.value ) == base
+                                                                                              for t_ in ( x.targets if isinstance( x, ast.Assign ) else [ x.target ] )) ]
+            stores += [ stmt_of( src, x ) for x in own if isinstance( x, ast.Call ) and isinstance( x.func, ast.Attribute ) and x.func.attr in ( 'setdefault', 'update' ) and dotted( x.func.value ) == base ]
+            if not stores:
+                continue
+            stores_seen += len( stores )
+            removes = [ x for x in own if ( isinstance( x, ast.Delete ) and any( isinstance( t_, ast.Subscript ) and dotted( t_.value ) == base for t_ in x.targets ))
+                        or ( isinstance( x, ast.Call ) and isinstance( x.func, ast.Attribute ) and x.func.attr in ( 'pop', 'popitem', 'clear' ) and dotted( x.func.value ) == base ) ]
+            if not removes:
+                res.ok( src, stores[0], '%s: stores into the lookup table `%s` and removes nothing from it' % ( src.qualname_of( fn ), base ))
+                continue
+            cfg_ = CFG( fn )
+            for r_ in removes:
+                rs = r_ if isinstance( r_, ast.stmt ) else stmt_of( src, r_ )
+                rn = cfg_.node_of( rs )
+                ahead = [ st for st in stores if rn is not None and cfg_.node_of( st ) in cfg_.reachable( rn ) ]
+                if ahead or rn is None:
+                    hits += 1
+                    res.bad( src, rs, '%s removes from the lookup table `%s` ( %s ) on its way to storing into it' % ( src.qualname_of( fn ), base, norm_text( rs )[:50] ),
+                             'between the removal and the store a request of another session finds no entry: a tag that exists all along is answered as unknown' )
+                else:
+                    res.ok( src, rs, '%s: the removal from `%s` lies behind its stores' % ( src.qualname_of( fn ), base ))
+    if stores_seen < 2:
+        raise AnalysisError( 'W-ITERDEL: stores into the lookup tables symbol / directory found %d times ( anchors lost? )' % stores_seen )
     # a snapshot `for k in list( self.forwards.keys() )` has the Call as its iter and is not a walk over the table; count them for the record
     snaps = sum( 1 for rel, base, why in SHARED if ctx.model.exists( rel ) for n in ast.walk( ctx.src( rel ).tree ) if isinstance( n, ast.Call ) and call_name( n ) in SNAP and n.args
                  and base in ( dotted( n.args[0] ), dotted( n.args[0].func.value ) if isinstance( n.args[0], ast.Call ) and isinstance( n.args[0].func, ast.Attribute ) else None ))
